@@ -145,7 +145,8 @@ def align_rules(facts, rep):
     for b, t in asserts:
         for x in dominating_facts(f, ex, b):
             if x[0] in ("Ne", "Eq") and any(y[0] == "bin" and y[1] == "Rem" and any(z[0] == "call" and z[1].endswith("end_local_start_central_extra_data") for z in walk(y)) for y in walk(x[1])):
-                chk = True
+                # ... against zero: `offset % align` compared with anything else fails for every correctly padded entry
+                chk = x[2][0] in ("const", "named") and x[2][2] == 0
     ok &= rep.check(chk, rule, "self-check", where(f, f.span), "assert_eq!(final data start % align, 0) after padding", "the alignment self-check disappeared")
     # the pad record: id 'za' then u16 length = pad vector length, then the pad
     # (written little-endian either by byteorder's write_u16::<LittleEndian> or as write_all(&(len as u16).to_le_bytes()))
@@ -159,6 +160,12 @@ def align_rules(facts, rep):
         v = cands[0]
         good = "len()" in tokens(v) and any(y[0] == "call" and y[1].endswith("from_elem") for y in walk(v))
     ok &= rep.check(good, rule, "pad-record-length", where(f, f.span), "pad record length field = length of the pad", "pad record length is not the pad vector's length")
+    # the record is complete: id, length, and then the pad bytes themselves (a record that announces n bytes and carries none is refused
+    # by the validation that follows -- every request that needs padding would fail)
+    wa = [norm(ex.operand(t_["args"][1], (b_, None))) for b_, t_ in calls_matching(f, r"io::Write::write_all$")]
+    good = any(any(y[0] == "call" and y[1].endswith("from_elem") for y in walk(a_)) for a_ in wa) and \
+        any("[u8; 2]" in show(a_) for a_ in wa)         # (the two-byte id; its value 0x617a is compared by the codec table of the pad record)
+    ok &= rep.check(good, rule, "pad-record-complete", where(f, f.span), "write_all(b\"za\"), the length, write_all(&pad)", "the padding record is not written completely (id, length, pad bytes): writes are %s" % [show(a_)[:40] for a_ in wa])
     # the pad length itself: the record costs 4 bytes of header, so the pad must satisfy (data_start + 4 + pad) % align == 0 with
     # 0 <= pad < align.  The expression that sizes the pad vector is reconstructed from the MIR (over `align` and the preliminary data
     # start) and evaluated on a grid of (align, data_start) pairs -- every align in 2..=64 and a few large ones, 300 offsets each;
